@@ -198,15 +198,11 @@ func u64p(v uint64) *uint64 { return &v }
 
 var failSeen = map[string]int{}
 
-// failCapped records a direct-oracle failure; every signature is written to oracle.txt at most
-// 6 times per run (the orchestrator re-reads the op stream per recorded failure), all
-// occurrences are counted in the distribution.
+// failCapped records a direct-oracle failure and counts it per signature in the distribution.
 func failCapped(c *Ctx, sig, detail string) {
 	failSeen[sig]++
 	c.Count("oracle-fail/" + sig)
-	if failSeen[sig] <= 6 {
-		c.Fail(sig, detail)
-	}
+	c.Fail(sig, detail)
 }
 
 func num(n int64) []byte { return vm.PushDataUint64(uint64(n)) }
